@@ -334,6 +334,26 @@ class Chain:
                 finally:
                     sc.names = saved
                 return "(PLet %s %s %s\n %s)" % (c, a, b, kk)
+            if isinstance(s, ast.Try) and len(s.handlers) == 1 and not s.orelse and not s.finalbody and len(s.body) == 1 \
+                    and isinstance(s.handlers[0].type, ast.Name) and s.handlers[0].type.id in EXNS:
+                # try: <one binding or return>  except X [as ex]: <statements ending in a raise>
+                h = s.handlers[0]
+                hprog = self.stmts(h.body, sc, nvars, lambda n: "PUnknown")
+                b = s.body[0]
+                if isinstance(b, ast.Return) and b.value is not None and sc.on_return is not None:
+                    a = self.val(b.value, sc)
+                    return "(PTry %s %s\n %s\n %s)" % (a, h.type.id, hprog, sc.on_return(nvars + 1, "(GVar %d)" % nvars))
+                if isinstance(b, ast.Assign) and len(b.targets) == 1 and isinstance(b.targets[0], ast.Name) \
+                        and not self._is_method_call(b.value):
+                    a = self.val(b.value, sc)
+                    saved = dict(sc.names)
+                    sc.names[b.targets[0].id] = "(GVar %d)" % nvars
+                    try:
+                        kk = self.stmts(rest, sc, nvars + 1, k)
+                    finally:
+                        sc.names = saved
+                    return "(PTry %s %s\n %s\n %s)" % (a, h.type.id, hprog, kk)
+                raise Unsupported("try statement")
             if isinstance(s, ast.Expr) and isinstance(s.value, ast.Call):
                 return self.call(s.value, sc, nvars, go)
         except Unsupported as ex:
@@ -358,7 +378,7 @@ class Chain:
         owner = _resolve(self.cls, f.attr, after=sc.owner if is_super else None)
         args = [self.val(a, sc) for a in c.args]
         self.depth += 1
-        if self.depth > 12:
+        if self.depth > 80:
             raise Unsupported("call depth")
         try:
             path, node = _fn_node(owner, f.attr)
@@ -411,7 +431,7 @@ class Chain:
 
     def inline(self, owner, name, args, nvars, go):
         self.depth += 1
-        if self.depth > 12:
+        if self.depth > 80:
             raise Unsupported("call depth")
         try:
             path, node = _fn_node(owner, name)
